@@ -340,7 +340,7 @@ def replay_cases(res, path, fam, want_env_label):
             line = line[6:]
         if line.startswith("do ("):
             do_cases.append(line)
-        elif line.startswith("free ("):
+        elif line.startswith("free (") or line.startswith("busyfree ("):
             free_cases.append(line)
         elif line.startswith("hs "):
             hs_cases.append(line)
